@@ -81,7 +81,7 @@ theorem same_setUniverse (st : St) (c u : ObjId) : Same st (setUniverse st c u).
 theorem same_step (st : St) (op : Op)
     (h : match op with
       | .setMaterial .. | .setUniverse .. | .claim .. | .setFill .. | .setNumber .. | .append .. | .remove ..
-      | .setMaterials .. | .setCells .. | .addCellChildren | .reupdate => True
+      | .setMaterials .. | .setCells .. | .addCellChildren | .reupdate | .extend .. | .appendRenumber .. => True
       | _ => False) : Same st (step st op).1 := by
   cases op with
   | setMaterial c m => exact same_setMaterial st c m
@@ -125,6 +125,27 @@ theorem same_step (st : St) (op : Op)
     split
     · exact Same.refl st
     · exact Same.refl _
+  | extend k os =>
+    simp only [step, collExtend]
+    split
+    · exact (same_setMembers st k _).trans (same_foldl (fun s o => s.setLinked k o) (fun s o => same_setLinked s k o) os _)
+    · exact Same.refl st
+  | appendRenumber k o =>
+    have happ : ∀ s : St, Same s (collAppend s k o).1 := by
+      intro s
+      unfold collAppend
+      split
+      · exact Same.refl s
+      · exact (same_setMembers s k _).trans (same_setLinked _ k o)
+    simp only [step, appendRenumber]
+    split
+    · exact Same.refl st
+    · try dsimp only
+      split
+      · split
+        · exact same_setLinked st k o
+        · exact ((same_setLinked st k o).trans (same_setNum _ k o _)).trans (happ _)
+      · exact (same_setLinked st k o).trans (happ _)
   | setGeometry c g => exact h.elim
   | iopCell u c g => exact h.elim
   | iopAlias u c g => exact h.elim
@@ -321,6 +342,8 @@ theorem C16_contain_step (st : St) (op : Op) (h : InvContain st) : InvContain (s
   | setNumber k o n => exact h.same (same_step st _ trivial)
   | append k o => exact h.same (same_step st _ trivial)
   | remove k o => exact h.same (same_step st _ trivial)
+  | extend k os => exact h.same (same_step st _ trivial)
+  | appendRenumber k o => exact h.same (same_step st _ trivial)
   | setMaterials ms => exact h.same (same_step st _ trivial)
   | setCells cs => exact h.same (same_step st _ trivial)
   | addCellChildren => exact h.same (same_step st _ trivial)
@@ -335,7 +358,8 @@ theorem C16_contain (ops : List Op) : ∀ (st : St), InvContain st → InvContai
 
 /-- the pool before anything is read or assigned satisfies the invariant -/
 theorem C16_contain_blank (cnum snum mnum unum tnum : ObjId → Int)
-    (strans : ObjId → Option ObjId) : InvContain (St.blank cnum snum mnum unum tnum strans) := by
+    (strans : ObjId → Option ObjId) (other : Kind → ObjId → Bool) :
+    InvContain (St.blank cnum snum mnum unum tnum strans other) := by
   intro c g hg
   simp [St.blank] at hg
 
@@ -351,7 +375,7 @@ def demo (clones : Bool) : St :=
   St.blank (fun o => o + 1) (fun o => if clones && o == 2 then 1 else o + 1) (fun o => o + 1) (fun o => o)
     (fun o => o + 1) (fun _ => none)
 
-theorem demo_inv (b : Bool) : InvContain (demo b) := C16_contain_blank _ _ _ _ _ _
+theorem demo_inv (b : Bool) : InvContain (demo b) := C16_contain_blank _ _ _ _ _ _ _
 
 /-- a non-trivial history (assignment, then replacement of a leaf's divider by a third surface) reaches a
     state where the containers really were extended -/
@@ -724,9 +748,55 @@ theorem geo_pExt (st : St) (op : Op)
   | setNumber k o n => exact hop.elim
   | append k o => exact hop.elim
   | remove k o => exact hop.elim
+  | extend k os => exact hop.elim
+  | appendRenumber k o => exact hop.elim
   | setMaterials ms => exact hop.elim
   | setCells cs => exact hop.elim
   | addCellChildren => exact hop.elim
+
+theorem collAppend_linked (st : St) (k : Kind) (o : ObjId) (h : InvLinked st) : InvLinked (collAppend st k o).1 := by
+  unfold collAppend
+  split
+  · exact h
+  · intro k' x hx
+    rw [setLinked_members, setMembers_members] at hx
+    split at hx
+    · subst_vars
+      rcases List.mem_append.mp hx with hm | hm
+      · exact setLinked_mono _ _ _ _ _ (by rw [setMembers_linked]; exact h _ x hm)
+      · simp only [List.mem_singleton] at hm
+        subst hm
+        exact setLinked_linked _ _ _
+    · exact setLinked_mono _ _ _ _ _ (by rw [setMembers_linked]; exact h _ x hx)
+
+theorem setLinked_invLinked (st : St) (k : Kind) (o : ObjId) (h : InvLinked st) : InvLinked (st.setLinked k o) := by
+  intro k' x hx
+  rw [setLinked_members] at hx
+  exact setLinked_mono _ _ _ _ _ (h k' x hx)
+
+theorem setNum_invLinked (st : St) (k : Kind) (o : ObjId) (n : Int) (h : InvLinked st) : InvLinked (st.setNum k o n) := by
+  intro k' x hx
+  rw [setNum_members] at hx
+  rw [setNum_linked]
+  exact h k' x hx
+
+/-- folding `link_to_problem` over a list of objects of one class: members untouched, links only set, every
+    listed object linked -/
+theorem setLinkedFold_spec (k : Kind) : ∀ (l : List ObjId) (s : St),
+    (∀ k', (l.foldl (fun s o => s.setLinked k o) s).members k' = s.members k') ∧
+    (∀ k' x, s.linked k' x = true → (l.foldl (fun s o => s.setLinked k o) s).linked k' x = true) ∧
+    (∀ x ∈ l, (l.foldl (fun s o => s.setLinked k o) s).linked k x = true) := by
+  intro l
+  induction l with
+  | nil => intro s; exact ⟨fun _ => rfl, fun _ _ hx => hx, fun x hx => by cases hx⟩
+  | cons a t ih =>
+    intro s
+    obtain ⟨h1, h2, h3⟩ := ih (s.setLinked k a)
+    refine ⟨fun k' => (h1 k').trans (setLinked_members s k k' a),
+      fun k' x hx => h2 k' x (setLinked_mono s k k' a x hx), fun x hx => ?_⟩
+    rcases List.mem_cons.mp hx with rfl | ht
+    · exact h2 k _ (setLinked_linked s k _)
+    · exact h3 x ht
 
 /-- **C16_linked_step** — every edit keeps "members are linked", also when it raises: collection
     insertion links the new member, the repaired `materials` setter and `add_cell_children_to_problem` link
@@ -860,6 +930,30 @@ theorem C16_linked_step (st : St) (op : Op) (h : InvLinked st) : InvLinked (step
       split at hx
       · subst_vars; exact h _ x (List.mem_of_mem_erase hx)
       · exact h k' x hx
+  | extend k os =>
+    simp only [step, collExtend]
+    split
+    · obtain ⟨h1, h2, h3⟩ := setLinkedFold_spec k os (st.setMembers k (st.members k ++ os))
+      intro k' x hx
+      rw [h1 k', setMembers_members] at hx
+      split at hx
+      · subst_vars
+        rcases List.mem_append.mp hx with hm | hm
+        · exact h2 _ x (by rw [setMembers_linked]; exact h _ x hm)
+        · exact h3 x hm
+      · exact h2 k' x (by rw [setMembers_linked]; exact h k' x hx)
+    · exact h
+  | appendRenumber k o =>
+    simp only [step, appendRenumber]
+    split
+    · exact h
+    · try dsimp only
+      have h1 := setLinked_invLinked st k o h
+      split
+      · split
+        · exact h1
+        · exact collAppend_linked _ k o (setNum_invLinked _ k o _ h1)
+      · exact collAppend_linked _ k o h1
   | setMaterials ms =>
     simp only [step, setMaterials]
     split
@@ -930,7 +1024,8 @@ theorem C16_linked (ops : List Op) : ∀ (st : St), InvLinked st → InvLinked (
     exact ih (step st op).1 (C16_linked_step st op h)
 
 theorem C16_linked_blank (cnum snum mnum unum tnum : ObjId → Int)
-    (strans : ObjId → Option ObjId) : InvLinked (St.blank cnum snum mnum unum tnum strans) := by
+    (strans : ObjId → Option ObjId) (other : Kind → ObjId → Bool) :
+    InvLinked (St.blank cnum snum mnum unum tnum strans other) := by
   intro k o ho
   cases k <;> simp [St.blank, St.members] at ho
 
@@ -1258,6 +1353,86 @@ theorem linkCells_spec : ∀ (l : List ObjId) (st : St),
     · exact (goodCell_linkCell_self st d).pExt e.pExt
     · exact hg d ht
 
+/-- every cell of the problem is good -/
+def GoodAll (st : St) : Prop := ∀ d ∈ st.cells, GoodCell st d
+
+theorem setLinked_good (st : St) (k : Kind) (o : ObjId) (h : GoodAll st) : GoodAll (st.setLinked k o) := by
+  cases k
+  · intro d hd
+    have hd' : d ∈ st.cells := by
+      have : (st.setLinked .cell o).cells = st.cells := (linkCell_ext st o).members .cell
+      rw [this] at hd; exact hd
+    exact (h d hd').pExt (linkCell_ext st o).pExt
+  · intro d hd
+    exact (h d hd).mono ⟨rfl, rfl, rfl, fun hx => hx⟩
+      (fun x hx => by show upd st.slink o true x = true; unfold upd; split <;> first | rfl | exact hx)
+      (fun _ hx => hx) (fun _ hx => hx)
+  · intro d hd
+    exact (h d hd).mono ⟨rfl, rfl, rfl, fun hx => hx⟩ (fun _ hx => hx)
+      (fun x hx => by show upd st.mlink o true x = true; unfold upd; split <;> first | rfl | exact hx)
+      (fun _ hx => hx)
+  · intro d hd
+    exact (h d hd).mono ⟨rfl, rfl, rfl, fun hx => hx⟩ (fun _ hx => hx) (fun _ hx => hx)
+      (fun x hx => by show upd st.ulink o true x = true; unfold upd; split <;> first | rfl | exact hx)
+  · intro d hd
+    exact (h d hd).mono ⟨rfl, rfl, rfl, fun hx => hx⟩ (fun _ hx => hx) (fun _ hx => hx) (fun _ hx => hx)
+
+theorem setNum_good (st : St) (k : Kind) (o : ObjId) (n : Int) (h : GoodAll st) : GoodAll (st.setNum k o n) := by
+  intro d hd
+  have hcells : (st.setNum k o n).cells = st.cells := by cases k <;> rfl
+  rw [hcells] at hd
+  refine (h d hd).mono ?_ ?_ ?_ ?_
+  · cases k <;> exact ⟨rfl, rfl, rfl, fun hx => hx⟩
+  all_goals (intro x hx; cases k <;> exact hx)
+
+theorem setLinkedFold_good (k : Kind) : ∀ (l : List ObjId) (s : St), GoodAll s →
+    GoodAll (l.foldl (fun s o => s.setLinked k o) s) := by
+  intro l
+  induction l with
+  | nil => intro s h; exact h
+  | cons a t ih => intro s h; exact ih _ (setLinked_good s k a h)
+
+/-- a new member through `append`: the old cells stay good; a new *cell* is good because
+    `Cell.link_to_problem` links what it already points at -/
+theorem collAppend_good (st : St) (k : Kind) (o : ObjId) (h : GoodAll st) : GoodAll (collAppend st k o).1 := by
+  unfold collAppend
+  split
+  · exact h
+  · cases k
+    · intro d hd
+      have e : Ext (st.setMembers .cell (st.members .cell ++ [o])) ((st.setMembers .cell (st.members .cell ++ [o])).setLinked .cell o) :=
+        linkCell_ext _ o
+      have hd' : d ∈ st.cells ++ [o] := hd
+      rcases List.mem_append.mp hd' with hd1 | hd1
+      · have hg : GoodCell (st.setMembers .cell (st.members .cell ++ [o])) d := h d hd1
+        exact hg.pExt e.pExt
+      · simp only [List.mem_singleton] at hd1
+        subst hd1
+        exact goodCell_linkCell_self _ d
+    · exact setLinked_good (st.setMembers .surface _) .surface o h
+    · exact setLinked_good (st.setMembers .material _) .material o h
+    · exact setLinked_good (st.setMembers .universe _) .universe o h
+    · exact setLinked_good (st.setMembers .transform _) .transform o h
+
+theorem collExtend_good (st : St) (k : Kind) (os : List ObjId) (h : GoodAll st) : GoodAll (collExtend st k os).1 := by
+  unfold collExtend
+  split
+  · cases k
+    · obtain ⟨e, hg⟩ := linkCells_spec os (st.setMembers .cell (st.members .cell ++ os))
+      intro d hd
+      have hcells : (os.foldl (fun (s : St) c => s.setLinked .cell c) (st.setMembers .cell (st.members .cell ++ os))).cells
+          = st.cells ++ os := e.members .cell
+      rw [hcells] at hd
+      rcases List.mem_append.mp hd with hd1 | hd1
+      · have hg0 : GoodCell (st.setMembers .cell (st.members .cell ++ os)) d := h d hd1
+        exact hg0.pExt e.pExt
+      · exact hg d hd1
+    · exact setLinkedFold_good .surface os (st.setMembers .surface _) h
+    · exact setLinkedFold_good .material os (st.setMembers .material _) h
+    · exact setLinkedFold_good .universe os (st.setMembers .universe _) h
+    · exact setLinkedFold_good .transform os (st.setMembers .transform _) h
+  · exact h
+
 /-- **C16_step** — every modelled operation preserves the invariant `Reach`, also when it raises. -/
 theorem C16_step (st : St) (op : Op) (h : Reach st) : Reach (step st op).1 := by
   refine ⟨C16_contain_step st op h.contain, C16_linked_step st op h.linked, ?_⟩
@@ -1327,6 +1502,18 @@ theorem C16_step (st : St) (op : Op) (h : Reach st) : Reach (step st op).1 := by
           (fun x hx => by show upd st.ulink o true x = true; unfold upd; split <;> first | rfl | exact hx)
       · intro d hd
         exact (h.good d hd).mono ⟨rfl, rfl, rfl, fun hx => hx⟩ (fun _ hx => hx) (fun _ hx => hx) (fun _ hx => hx)
+  | extend k os => exact collExtend_good st k os h.good
+  | appendRenumber k o =>
+    simp only [step, appendRenumber]
+    split
+    · exact h.good
+    · try dsimp only
+      have h1 := setLinked_good st k o h.good
+      split
+      · split
+        · exact h1
+        · exact collAppend_good _ k o (setNum_good _ k o _ h1)
+      · exact collAppend_good _ k o h1
   | remove k o =>
     simp only [step, collRemove]
     split
@@ -1373,9 +1560,9 @@ theorem C16_reachable (ops : List Op) : ∀ (st : St), Reach st → Reach (run s
   | nil => intro st h; exact h
   | cons op t ih => intro st h; exact ih (step st op).1 (C16_step st op h)
 
-theorem C16_reach_blank (cnum snum mnum unum tnum : ObjId → Int) (strans : ObjId → Option ObjId) :
-    Reach (St.blank cnum snum mnum unum tnum strans) :=
-  ⟨C16_contain_blank _ _ _ _ _ _, C16_linked_blank _ _ _ _ _ _, fun d hd => by simp [St.blank] at hd⟩
+theorem C16_reach_blank (cnum snum mnum unum tnum : ObjId → Int) (strans : ObjId → Option ObjId)
+    (other : Kind → ObjId → Bool) : Reach (St.blank cnum snum mnum unum tnum strans other) :=
+  ⟨C16_contain_blank _ _ _ _ _ _ _, C16_linked_blank _ _ _ _ _ _ _, fun d hd => by simp [St.blank] at hd⟩
 
 /-! ## `load` produces a state that satisfies the invariant -/
 
@@ -1617,14 +1804,14 @@ theorem appendAll_sameCells (k : Kind) : ∀ (l : List ObjId) (st : St), Same st
     containment for every cell object (exactly, for the cells of the file: `C16_load`), every member of the five
     collections linked, and the surfaces, material and universe of every cell of the problem linked. -/
 theorem C16_init (cnum snum mnum unum tnum : ObjId → Int) (strans : ObjId → Option ObjId)
-    (pcs : List PCell) (nS nM nT : Nat) (nextU : ObjId)
-    (h : (load (St.blank cnum snum mnum unum tnum strans) pcs nS nM nT nextU).1.2 = none) :
-    Reach (load (St.blank cnum snum mnum unum tnum strans) pcs nS nM nT nextU).1.1 := by
-  have hblank := C16_reach_blank cnum snum mnum unum tnum strans
-  have hu : UniqS (St.blank cnum snum mnum unum tnum strans) := by simp [UniqS, St.blank]
+    (other : Kind → ObjId → Bool) (pcs : List PCell) (nS nM nT : Nat) (nextU : ObjId)
+    (h : (load (St.blank cnum snum mnum unum tnum strans other) pcs nS nM nT nextU).1.2 = none) :
+    Reach (load (St.blank cnum snum mnum unum tnum strans other) pcs nS nM nT nextU).1.1 := by
+  have hblank := C16_reach_blank cnum snum mnum unum tnum strans other
+  have hu : UniqS (St.blank cnum snum mnum unum tnum strans other) := by simp [UniqS, St.blank]
   -- containment: the cells of the file by `C16_load`; every other cell object still has no geometry
   have hexact := C16_load _ pcs nS nM nT nextU hu h
-  generalize hst : St.blank cnum snum mnum unum tnum strans = st at *
+  generalize hst : St.blank cnum snum mnum unum tnum strans other = st at *
   have hgeom0 : ∀ c, (st.cellOf c).geom = none := by intro c; rw [← hst]; rfl
   unfold load at h hexact ⊢
   dsimp only at h hexact ⊢
@@ -1759,10 +1946,10 @@ theorem C16_exact_partition (st : St) (h : Reach st) (d : ObjId) (hd : d ∈ st.
     does not raise), apply any sequence of the modelled operations: the resulting state satisfies `Reach`, hence
     containment and the exact reverse look-ups above. -/
 theorem C16_main (cnum snum mnum unum tnum : ObjId → Int) (strans : ObjId → Option ObjId)
-    (pcs : List PCell) (nS nM nT : Nat) (nextU : ObjId) (ops : List Op)
-    (h : (load (St.blank cnum snum mnum unum tnum strans) pcs nS nM nT nextU).1.2 = none) :
-    Reach (run (load (St.blank cnum snum mnum unum tnum strans) pcs nS nM nT nextU).1.1 ops) :=
-  C16_reachable ops _ (C16_init cnum snum mnum unum tnum strans pcs nS nM nT nextU h)
+    (other : Kind → ObjId → Bool) (pcs : List PCell) (nS nM nT : Nat) (nextU : ObjId) (ops : List Op)
+    (h : (load (St.blank cnum snum mnum unum tnum strans other) pcs nS nM nT nextU).1.2 = none) :
+    Reach (run (load (St.blank cnum snum mnum unum tnum strans other) pcs nS nM nT nextU).1.1 ops) :=
+  C16_reachable ops _ (C16_init cnum snum mnum unum tnum strans other pcs nS nM nT nextU h)
 
 /-- non-vacuity: the two-cell file loads; after an edit history both cells have a universe, cell 0 is linked and
     complemented by cell 1, and the reverse look-ups are non-empty -/
@@ -1773,5 +1960,50 @@ example :
     (st.cellOf 0).univ = some 0 ∧ (st.cellOf 1).univ = some 1 ∧ (st.cellOf 0).link = true ∧
     surfaceCells st 2 = [0] ∧ surfaceCells st 0 = [0, 1] ∧ materialCells st 2 = [1] ∧
     universeCells st 1 = [1] ∧ cellsComplementing st 0 = [1] := by decide
+
+/-! ## identity of the link target: entering a problem re-links -/
+
+/-- **C16_linked_here** — in a state that satisfies the invariant the `_problem` of every member of the five
+    collections is THIS problem — not merely "some problem": an object that came in linked to another problem
+    (`other`: a deepcopy of a member, an object of a second problem) has been re-linked. -/
+theorem C16_linked_here (st : St) (h : InvLinked st) (k : Kind) (o : ObjId) (ho : o ∈ st.members k) :
+    st.linkOf k o = some .here := by
+  unfold St.linkOf
+  simp [h k o ho]
+
+/-- **C16_relink_append** — the entry door `append`: whatever the new member was linked to before -/
+theorem C16_relink_append (st : St) (k : Kind) (o : ObjId) (hok : (collAppend st k o).2 = none) :
+    o ∈ (collAppend st k o).1.members k ∧ (collAppend st k o).1.linkOf k o = some .here := by
+  unfold collAppend at hok ⊢
+  split
+  · rename_i hc; rw [if_pos hc] at hok; cases hok
+  · refine ⟨by rw [setLinked_members, setMembers_members]; simp, ?_⟩
+    unfold St.linkOf
+    simp [setLinked_linked]
+
+/-- **C16_relink_extend** — the entry doors `extend` and `+=` -/
+theorem C16_relink_extend (st : St) (k : Kind) (os : List ObjId) (hok : (collExtend st k os).2 = none)
+    (o : ObjId) (ho : o ∈ os) :
+    o ∈ (collExtend st k os).1.members k ∧ (collExtend st k os).1.linkOf k o = some .here := by
+  unfold collExtend at hok ⊢
+  split
+  · obtain ⟨h1, _, h3⟩ := setLinkedFold_spec k os (st.setMembers k (st.members k ++ os))
+    refine ⟨by rw [h1 k, setMembers_members]; simp [ho], ?_⟩
+    unfold St.linkOf
+    simp [h3 o ho]
+  · rename_i hc; rw [if_neg hc] at hok; cases hok
+
+/-- **C16_relink_pointee** — the entry door "assigned as the material of a cell of the problem" -/
+theorem C16_relink_pointee (st : St) (c m : ObjId) (hl : (st.cellOf c).link = true) :
+    (setMaterial st c (some m)).1.linkOf .material m = some .here := by
+  unfold St.linkOf
+  simp [setMaterial, St.linked, hl]
+
+/-- non-vacuity: material `1` comes in linked to another problem; after `append` it is linked here -/
+example :
+    let st := St.blank (fun o => o + 1) (fun o => o + 1) (fun o => o + 1) (fun o => o) (fun o => o + 1) (fun _ => none)
+      (fun k o => k == .material && o == 1)
+    st.linkOf .material 1 = some .elsewhere ∧ (collAppend st .material 1).2 = none ∧
+    (collAppend st .material 1).1.linkOf .material 1 = some .here := by decide
 
 end MontePyVerif.Links
